@@ -113,11 +113,11 @@ def cases(tier, seed, ctx=None):
     yield ("tls", [7, 45 if quick else 100], "server-history")
 
     # over a real connection, TLS and plain: (a) the application waits for the write-progress notifications of a 3000-byte body
-    # before it closes - they add up to 3000; (b) a 3 MiB answer to a client that reads slowly - the server's thread keeps returning
+    # before it closes - they add up to 3000; (b) a 12 MiB answer to a client that reads slowly through a small window - the server's thread keeps returning
     # to its event loop meanwhile
     for j in range(2 if tier == "quick" else 10):
         yield ("tlsraw", [b"GET /notify HTTP/1.1\r\nHost: h\r\n\r\n", 0, 0, [], 1, 0, 0], "%s-notifications-before-close" % 'raw-client')
-    yield ("tlsraw", [b"GET /big HTTP/1.1\r\nHost: h\r\n\r\n", 0, 0, [], 1, 0, 2], "%s-slow-reader" % 'raw-client')
+    yield ("tlsraw", [b"GET /bighuge HTTP/1.1\r\nHost: h\r\n\r\n", 0, 0, [], 1, 0, 6], "%s-slow-reader" % 'raw-client')
     # the TLS configuration is set on a server that is already listening and has served n plain connections: TLS-only from then on
     for n in (0, 1, 3):
         yield ("tls", [8, n], "configured-while-serving")
